@@ -19,6 +19,7 @@ Every P/K answer is compared with the Lean driver and, independently, judged by 
 import json
 import math
 import os
+import sys
 import time
 from fractions import Fraction
 
@@ -27,6 +28,8 @@ from vlib import (INT_TYPES, UBSAN_ENV, Driver, cxx, finish, kv, pmap, promote, 
                   workdir, SAN_CLANG, SAN_GCC, LEAN, lake_build)
 
 PROP = "C05"
+if hasattr(sys, "set_int_max_str_digits"):
+    sys.set_int_max_str_digits(0)
 ASSUME = [
     "factors are positive rationals N/D with N, D < 2^63 whose prime factors the library can find at compile time "
     "(no prime base >= 2^63: finding F1, property C11)",
@@ -50,6 +53,9 @@ PENDING_FINDINGS = [
     {"key": "F9", "what": "integral source, floating target: the result is the correctly rounded, not the exact, value "
                           "(e.g. int64 2^53+1 -> double) and is never reported lossy (library convention: floating "
                           "destinations are treated as value-preserving)"},
+    {"key": "F12", "what": "floating common type: the overflow check compares x against the ROUNDED quotient max/mag; for x equal to that "
+                           "threshold when it was rounded up (1 value per sign and factor) x*mag overflows to inf although neither "
+                           "will_conversion_overflow nor is_conversion_lossy reports it (e.g. float 0x1.12e0bep+98 x 10^9)"},
     {"key": "F11", "what": "will_conversion_truncate<T> / is_conversion_lossy<T> evaluate coerce_in on the common-type value "
                            "without having checked overflow first: signed integer overflow (UB) inside the checker for inputs "
                            "that will_conversion_overflow<T> then reports (e.g. int32 2^30 x 3/2 -> int32)"},
@@ -232,6 +238,18 @@ def from_me(s):
         return s
     m, e = s.split(":")
     return Fraction(int(m)) * _pow2(int(e))
+
+
+def fstr(v):
+    """Compact exact text of a value for records (hex float when dyadic)."""
+    if isinstance(v, str) or v is None:
+        return str(v)
+    if isinstance(v, int):
+        return str(v) if abs(v) < 1 << 200 else hex(v)
+    d = v.denominator
+    if d & (d - 1) == 0:
+        return to_hex(v) if (abs(v.numerator) >= 1 << 64 or d > 1) else str(v.numerator)
+    return f"{v.numerator:#x}/{d:#x}" if max(abs(v.numerator), d) >= 1 << 200 else f"{v.numerator}/{d}"
 
 
 def trunc_frac(q):
@@ -718,21 +736,37 @@ def mag_expr(v):
     return f"au::mag<{v}ull>()"
 
 
-def write_harness(wd, insts, nchunks=16):
-    chunks = [insts[i::nchunks] for i in range(nchunks)]
-    chunks = [c for c in chunks if c]
-    files = []
-    for ci, ch in enumerate(chunks):
-        p = os.path.join(wd, f"chunk{ci}.cc")
-        with open(p, "w") as f:
-            f.write(HARNESS_COMMON)
-            f.write(f"extern const Entry table{ci}[] = {{\n")
-            for ins in ch:
-                ident = "true" if (ins["N"], ins["D"]) == (1, 1) else "false"
-                intdiv = "true" if (ins["N"] == 1 and ins["D"] != 1) else "false"
-                f.write(f"  ENTRY({ins['id']}, {CT[ins['S']]}, {CT[ins['T']]}, {mag_expr(ins['N'])}, {mag_expr(ins['D'])}, {ident}, {intdiv}),\n")
-            f.write("};\n")
-        files.append(p)
+def _entry_line(ins):
+    ident = "true" if (ins["N"], ins["D"]) == (1, 1) else "false"
+    intdiv = "true" if (ins["N"] == 1 and ins["D"] != 1) else "false"
+    return f"  ENTRY({ins['id']}, {CT[ins['S']]}, {CT[ins['T']]}, {mag_expr(ins['N'])}, {mag_expr(ins['D'])}, {ident}, {intdiv}),\n"
+
+
+def _write_chunk(wd, name, ch):
+    p = os.path.join(wd, f"{name}.cc")
+    with open(p, "w") as f:
+        f.write(HARNESS_COMMON)
+        f.write(f"extern const Entry table_{name}[] = {{\n")
+        for ins in ch:
+            f.write(_entry_line(ins))
+        f.write("};\n")
+    return p
+
+
+XFLAGS = ["-fsanitize=float-cast-overflow", "-fsanitize-recover=float-cast-overflow"]
+
+
+def build_harness(wd, insts, compiler, std, tag, nchunks=16):
+    """Compile the harness for `insts`.  Returns (exe | None, failed instances, error detail).  A chunk that does not
+    compile is split into single-instance translation units so that the instances the compiler rejects are identified
+    and the exploration continues on the others."""
+    def comp(job):
+        name, src = job
+        obj = src[:-3] + f".{tag}.o"
+        rc, out = cxx(src, obj, compiler=compiler, std=std, extra=XFLAGS + ["-c"])
+        return (name, obj, rc, out)
+    chunks = {f"c{ci}": insts[ci::nchunks] for ci in range(nchunks) if insts[ci::nchunks]}
+    jobs = [(name, _write_chunk(wd, name, ch)) for name, ch in chunks.items()]
     p = os.path.join(wd, "casts.cc")
     with open(p, "w") as f:
         f.write(HARNESS_COMMON + HARNESS_CAST)
@@ -741,39 +775,46 @@ def write_harness(wd, insts, nchunks=16):
             for t in ALL:
                 f.write(f'  CENTRY("{s}", "{t}", {CT[s]}, {CT[t]}),\n')
         f.write("};\nextern const int n_cast = %d;\n" % (len(ALL) ** 2))
-    files.append(p)
+    jobs.append(("casts", p))
+    good, failed, detail = {}, [], None
+    retry = []
+    for name, obj, rc, out in pmap(comp, jobs):
+        if rc == 0:
+            good[name] = obj
+        elif name == "casts":
+            return None, [], {"src": "casts.cc", "output": out[-4000:]}
+        else:
+            detail = detail or {"src": name, "output": out[-3000:]}
+            for ins in chunks[name]:
+                nm = f"s{ins['id']}"
+                chunks[nm] = [ins]
+                retry.append((nm, _write_chunk(wd, nm, [ins])))
+            del chunks[name]
+    for name, obj, rc, out in pmap(comp, retry):
+        if rc == 0:
+            good[name] = obj
+        else:
+            failed.append(chunks[name][0])
+            del chunks[name]
+    names = [n for n in chunks if n in good]
     p = os.path.join(wd, "main.cc")
     with open(p, "w") as f:
         f.write(HARNESS_COMMON + HARNESS_CAST)
-        for ci, ch in enumerate(chunks):
-            f.write(f"extern const Entry table{ci}[];\n")
-        f.write("const Entry* const chunks[] = {" + ", ".join(f"table{ci}" for ci in range(len(chunks))) + "};\n")
-        f.write("const int chunk_sizes[] = {" + ", ".join(str(len(ch)) for ch in chunks) + "};\n")
-        f.write(f"const int n_chunks = {len(chunks)};\n")
+        for n in names:
+            f.write(f"extern const Entry table_{n}[];\n")
+        f.write("const Entry* const chunks[] = {" + ", ".join(f"table_{n}" for n in names) + (", " if names else "") + "nullptr};\n")
+        f.write("const int chunk_sizes[] = {" + ", ".join(str(len(chunks[n])) for n in names) + (", " if names else "") + "0};\n")
+        f.write(f"const int n_chunks = {len(names)};\n")
         f.write(HARNESS_MAIN)
-    files.append(p)
-    return files
-
-
-XFLAGS = ["-fsanitize=float-cast-overflow", "-fsanitize-recover=float-cast-overflow"]
-
-
-def build_harness(wd, files, compiler, std, tag):
-    def comp(src):
-        obj = src[:-3] + f".{tag}.o"
-        rc, out = cxx(src, obj, compiler=compiler, std=std, extra=XFLAGS + ["-c"])
-        return (src, obj, rc, out)
-    objs = []
-    for src, obj, rc, out in pmap(comp, files):
-        if rc != 0:
-            return None, {"src": src, "output": out[-4000:]}
-        objs.append(obj)
+    name, obj, rc, out = comp(("main", p))
+    if rc != 0:
+        return None, failed, {"src": "main.cc", "output": out[-4000:]}
     exe = os.path.join(wd, f"harness_{tag}")
     san = SAN_CLANG if compiler.startswith("clang") else SAN_GCC
-    rc, out, err = run([compiler] + san + XFLAGS + objs + ["-o", exe])
+    rc, out, err = run([compiler] + san + XFLAGS + [good[n] for n in names] + [good["casts"], obj, "-o", exe])
     if rc != 0:
-        return None, {"src": "link", "output": (out + err)[-4000:]}
-    return exe, None
+        return None, failed, {"src": "link", "output": (out + err)[-4000:]}
+    return exe, failed, detail
 
 
 def run_sharded(fn_one, reqs, shards=16):
@@ -864,7 +905,7 @@ def judge(ins, x, r):
         if not lossy:
             if not (stages and exact) or val != q or ubv:
                 out.append(("cleared-unsound", "not reported lossy, but a stage leaves its range / the result is not the exact x*N/D / UB",
-                            {"stages_in_range": stages, "exact_integer": exact, "want": str(Fraction(y, d)), "got": r["val"], "ub": ubv}))
+                            {"stages_in_range": stages, "exact_integer": exact, "want": fstr(Fraction(y, d)), "got": r["val"], "ub": ubv}))
         return out
     mid = parse_hex(r["mid"]) if r["mid"] != "-" else None
     xq = Fraction(x) if not isinstance(x, str) else x
@@ -875,7 +916,7 @@ def judge(ins, x, r):
         if not lossy:
             if not (castable and integer) or val != mid or ubv:
                 out.append(("cleared-unsound", "not reported lossy, but the computed floating value cannot be cast to the integral target exactly",
-                            {"mid": str(mid), "got": r["val"], "ub": ubv, "mid_is_hi_plus_1": (not isinstance(mid, str)) and mid == th + 1,
+                            {"mid": fstr(mid), "got": r["val"], "ub": ubv, "mid_is_hi_plus_1": (not isinstance(mid, str)) and mid == th + 1,
                              "castable": castable, "integer": integer}))
         return out
     if is_int(s) and not is_int(t):
@@ -889,15 +930,20 @@ def judge(ins, x, r):
                 _, p, emax = FLT[t]
                 tol = max(abs(exact) * Fraction(4, 2 ** p), _pow2(1 - emax - p + 1))
                 out.append(("value-inexact", "integral source, floating target: the result is not the exact value x*N/D",
-                            {"want": str(exact), "got": r["val"], "within_4ulp": abs(val - exact) <= tol,
+                            {"want": fstr(exact), "got": r["val"], "within_4ulp": abs(val - exact) <= tol,
                              "x_exceeds_2^p": abs(x) > 2 ** p, "identity_factor": (n, d) == (1, 1)}))
         return out
     # floating source, floating target
     if not lossy and not isinstance(xq, str):
         want = rne(t, mid) if not isinstance(mid, str) else mid
         if isinstance(mid, str) or isinstance(val, str) or val != want or ubv:
+            _, pc, _ = FLT[c]
+            ex = abs(xq) * Fraction(n, d)
             out.append(("cleared-unsound", "not reported lossy (finite input), but the computed value or its cast to the target is not finite / "
-                        "not the correctly rounded cast", {"mid": str(mid), "want": str(want), "got": r["val"], "ub": ubv}))
+                        "not the correctly rounded cast",
+                        {"mid": fstr(mid), "want": fstr(want), "got": r["val"], "ub": ubv, "mid_is_inf": mid in ("inf", "-inf"),
+                         "exact_product_within_one_rounding_of_max": fmax(c) < ex <= fmax(c) * (1 + Fraction(4, 2 ** pc)),
+                         "target_is_common": t == c}))
     return out
 
 
@@ -908,6 +954,9 @@ def pending_key(v):
     if ob == "cleared-unsound" and (r.get("S"), r.get("T")) in F5_PAIRS and r.get("mid_is_hi_plus_1") is True \
             and r.get("integer") is True and r.get("castable") is False:
         return "F5"
+    if ob == "cleared-unsound" and not is_int(r.get("S", "i8")) and not is_int(r.get("T", "i8")) and r.get("mid_is_inf") is True \
+            and r.get("exact_product_within_one_rounding_of_max") is True and r.get("target_is_common") is True and r.get("ub") == 0:
+        return "F12"
     if ob == "value-inexact" and is_int(r.get("S", "f")) and not is_int(r.get("T", "i8")) and r.get("within_4ulp") is True:
         return "F9"
     if ob == "checker-ub" and is_int(r.get("S", "f")) and is_int(r.get("T", "f")) and r.get("exact_overflow") is True \
@@ -1069,7 +1118,6 @@ def explore(tier, seed, rng, wd, only=None, only_casts=None):
     live = [i for i in insts if i["compiles"]]
     dead = [i for i in insts if not i["compiles"]]
     stats["noncompiling"] = len(dead)
-    files = write_harness(wd, live)
     configs = [("g++", "c++14", "g14")]
     if tier == "thorough":
         configs += [("clang++-14", ["c++14", "c++17", "c++20"][seed % 3], "cl")]
@@ -1096,16 +1144,26 @@ def explore(tier, seed, rng, wd, only=None, only_casts=None):
     for (compiler, std, tag) in configs:
         cfg = f"{compiler} -std={std}"
         tq = time.time()
-        exe, err = build_harness(wd, files, compiler, std, tag)
+        exe, rejected, err = build_harness(wd, live, compiler, std, tag)
+        for ins in rejected[:5]:
+            violations.append({"what": f"{ins['S']}->{ins['T']} x {ins['N']}/{ins['D']}: the conversion / its <T> checkers do not compile under {cfg} "
+                               f"although the model (get_value static_asserts in the common type) says they do", "class": "corr-compiles-pos",
+                               "no_input": True, "broken": "correspondence: Au.compilesT",
+                               "rec": {"kind": "corr", "observable": "compiles", "S": ins["S"], "T": ins["T"], "N": ins["N"], "D": ins["D"],
+                                       "config": cfg, "count": len(rejected)}, "detail": err})
         if exe is None:
             violations.append({"what": f"harness does not compile under {cfg}: the model's compilesT predicate or the public "
                                f"conversion API no longer matches the headers", "class": "harness-build", "no_input": True,
                                "rec": {"kind": "build", "config": cfg}, "broken": "correspondence: Au.compilesT", "detail": err})
             continue
+        rej_ids = {i["id"] for i in rejected}
+        stats["rejected_by_compiler"] = stats.get("rejected_by_compiler", 0) + len(rejected)
         stats["configs"].append(cfg)
         stats["timing"][f"build_{tag}"] = round(time.time() - tq, 1)
         reqs = []       # dicts: kind, ins, h (harness lines), hn, m (model lines), w (weight), xs
         for i in live:
+            if i["id"] in rej_ids:
+                continue
             s, t, c = i["S"], i["T"], i["C"]
             if is_int(s) and INT_TYPES[s][1] <= 16 and "xs" not in i:
                 cnt = 1 << INT_TYPES[s][1]
